@@ -49,3 +49,26 @@ Definition two63N : N := 9223372036854775808.
 Definition headers_served (amount avail : N) : N :=
   if two63N <=? amount then 0          (* int(query.Amount) is negative: the loop body never runs *)
   else N.min (N.min amount avail) max_header_fetch.
+
+(* aqua/downloader/queue.go queue.deliver, shared by DeliverBodies and DeliverReceipts:
+   how many entries of a response are accepted against the pending request.
+     pending  = Some r : the peer has a request for r headers in flight (None: errNoFetchesPending)
+     matches  = one flag per response entry: does entry i reconstruct against requested header i
+                (tx root + uncle hash / receipt root); entries beyond the request have no header
+   `for i, header := range request.Headers { if i >= results { break }; if reconstruct fails { failure; break }; accepted++ }`
+   then: failure == nil -> (accepted, nil); useful -> partial failure; else errStaleDelivery. *)
+Inductive dlv_class := DlvOk | DlvNoFetch | DlvStale | DlvPartial.
+Fixpoint deliver_loop (req : nat) (matches : list bool) : nat * bool :=
+  match req, matches with
+  | O, _ => (O, false)
+  | S _, [] => (O, false)                                  (* i >= results *)
+  | S r, true :: t => let '(a, f) := deliver_loop r t in (S a, f)
+  | S _, false :: _ => (O, true)                           (* reconstruct failed *)
+  end.
+Definition deliver_rule (pending : option nat) (matches : list bool) : N * dlv_class :=
+  match pending with
+  | None => (0, DlvNoFetch)
+  | Some req =>
+    let '(a, f) := deliver_loop req matches in
+    (N.of_nat a, if negb f then DlvOk else if Nat.ltb 0 a then DlvPartial else DlvStale)
+  end.
